@@ -1,7 +1,7 @@
-CONSTANT MaxLines = 6
-CONSTANT SampleAbove = 6
+CONSTANT MaxLines = 3
+CONSTANT SampleAbove = 3
 CONSTANT SampleOneIn = 1
-CONSTANT PoolSel = "main"
+CONSTANT PoolSel = "twins"
 CONSTANT ExecMode = "canon"
 CONSTANT CompileMode = "outerfirst"
 SPECIFICATION Spec
